@@ -168,7 +168,9 @@ fn log_cid(e: &LogEv) -> Option<ConnectionId> {
         | LogEv::HandlerGot { cid, .. }
         | LogEv::HandlerPolled { cid, .. }
         | LogEv::HandlerDropped { cid, .. } => Some(*cid),
-        LogEv::Other { .. } => None,
+        // the shared sys.rs may grow further variants; ids in those are not judged here
+        #[allow(unreachable_patterns)]
+        _ => None,
     }
 }
 
